@@ -210,7 +210,7 @@ def run_property(prop, tier, seed, jobs=None, only=None, budget=None):
             n_viol += 1
             path = save_replay(prop, cell, v)
             viol_lines.append((path, name, v))
-    tot = {k: 0 for k in ("executions", "transitions", "states", "pruned", "terminals", "det_checks")}
+    tot = {k: 0 for k in ("executions", "transitions", "states", "pruned", "terminals", "det_checks", "unhashable")}
     maxdepth = 0
     obs = 0
     incomplete = []
@@ -257,6 +257,7 @@ def run_property(prop, tier, seed, jobs=None, only=None, budget=None):
             "distinct_terminal_observations": obs,
             "max_depth": maxdepth,
             "determinism_double_replays": tot["det_checks"],
+            "states_not_fingerprinted_never_merged": tot["unhashable"],
             "cells": len(cellrows),
             "cells_incomplete": incomplete,
             "per_cell": cellrows,
